@@ -148,7 +148,13 @@ func cmdRun(args []string) {
 	}
 	sort.Slice(results, func(i, j int) bool { return results[i].Inst.Name < results[j].Inst.Name })
 
+	if pd.ID == "C18" {
+		c18CrossCheck(results)
+	}
 	ev := buildEvidence(pd, *tier, seed, results, kf)
+	if pd.ID == "C18" {
+		ev.cov["c18_event_log"] = c18Summary(results)
+	}
 	ev.cov["load_s"] = loadS
 	if kernelStats != nil {
 		ev.cov["generated_kernel_coverage"] = kernelStats
@@ -517,6 +523,28 @@ func replayCandidates(prop string, cands []*candidate, kf *KFFile) ([]*candidate
 		if len(paths) == 0 {
 			continue
 		}
+		// C18 event obligations are confirmed by the race detector on a concurrent native run of the same instance
+		var plain []string
+		for _, c := range list {
+			if c.assert == "shared-operand-not-written" || c.assert == "global-state-written-only-under-mutex" {
+				if done, ok := raceDone[c.inst]; ok {
+					c.confirmed = done
+					continue
+				}
+				raced, out := nativeRace(c.path, tg)
+				raceDone[c.inst] = raced
+				c.confirmed = raced
+				if !raced {
+					fmt.Printf("  race replay %s: no report from the race detector\n%s\n", c.inst, tail(out, 600))
+				}
+				continue
+			}
+			plain = append(plain, c.path)
+		}
+		paths = plain
+		if len(paths) == 0 {
+			continue
+		}
 		res, err := nativeBatch(paths, tg)
 		if err != nil {
 			return nil, err
@@ -573,6 +601,40 @@ type nativeResult struct {
 	assumeKO bool
 	observed string
 	panicMsg string
+}
+
+var raceDone = map[string]bool{}
+
+// nativeRace runs TestVRace for one replay file under the race detector; true when a data race was reported.
+func nativeRace(path string, tags string) (bool, string) {
+	om, err := overlayMap()
+	if err != nil {
+		return false, err.Error()
+	}
+	tmp, err := os.MkdirTemp("", "gosym-race")
+	if err != nil {
+		return false, err.Error()
+	}
+	defer os.RemoveAll(tmp)
+	repl := map[string]string{}
+	for v, r := range om {
+		repl[v] = r
+	}
+	repl[filepath.Join(repoDir, "zz_verif_replay_test.go")] = filepath.Join(harnessDir(), "native", "replay_test.go.txt")
+	ob, _ := json.Marshal(map[string]interface{}{"Replace": repl})
+	ovf := filepath.Join(tmp, "overlay.json")
+	os.WriteFile(ovf, ob, 0o644)
+	args := []string{"test", "-race", "-vet=off", "-count=1", "-timeout", "20m", "-overlay", ovf, "-run", "^TestVRace$", "-v"}
+	if tags != "" {
+		args = append(args, "-tags", tags)
+	}
+	args = append(args, ".")
+	cmd := exec.Command("go", args...)
+	cmd.Dir = repoDir
+	cmd.Env = append(os.Environ(), "GOFLAGS=-mod=mod", "GOPROXY=off", "GOSUMDB=off", "GOTOOLCHAIN=local", "VERIF_RACE="+path, "CGO_ENABLED=1")
+	out, _ := cmd.CombinedOutput()
+	s := string(out)
+	return strings.Contains(s, "WARNING: DATA RACE"), s
 }
 
 // nativeBatch runs the harnesses natively (go test -overlay) on a list of replay files.
@@ -825,6 +887,22 @@ func cmdReplay(args []string) {
 	json.Unmarshal(b, &rf)
 	tg, _ := rf.Cfg["tags"].(string)
 	abs, _ := filepath.Abs(args[0])
+	if strings.HasPrefix(rf.Harness, "@kernel:") {
+		fmt.Println("kernel-level counterexamples are replayed by the check itself (generated execution_test); re-run the check")
+		os.Exit(2)
+	}
+	if rf.Assert == "shared-operand-not-written" || rf.Assert == "global-state-written-only-under-mutex" {
+		raced, out := nativeRace(abs, tg)
+		fmt.Printf("harness=%s assert=%s native: 4 goroutines x 25 runs under the race detector: data race reported=%v\n", rf.Harness, rf.Assert, raced)
+		if raced {
+			i := strings.Index(out, "WARNING: DATA RACE")
+			fmt.Println(tail(out[i:], 1500))
+			fmt.Println("REPRODUCED")
+			os.Exit(1)
+		}
+		fmt.Println("not reproduced")
+		return
+	}
 	res, err := nativeBatch([]string{abs}, tg)
 	if err != nil {
 		fmt.Fprintln(os.Stderr, err)
@@ -851,4 +929,72 @@ func outDir() string {
 		return d
 	}
 	return verifDir()
+}
+
+// c18CrossCheck: an operation that reads library-global state outside a mutex races with any operation of the menu that
+// writes the same state (the writer holding a mutex does not help the unlocked reader). Conflicts are added as violated
+// obligations to the reading instance, with the writer named in the replay configuration (op2).
+func c18CrossCheck(results []InstResult) {
+	type wr struct {
+		inst int
+		ctx  string
+	}
+	writes := map[string]wr{}
+	for i, r := range results {
+		for l, ctx := range r.C18Writes {
+			if _, ok := writes[l]; !ok {
+				writes[l] = wr{i, ctx}
+			}
+		}
+	}
+	for i := range results {
+		r := &results[i]
+		for _, l := range r.C18Reads {
+			w, ok := writes[l]
+			if !ok {
+				continue
+			}
+			cfg := map[string]interface{}{}
+			for k, v := range r.Inst.Cfg {
+				cfg[k] = v
+			}
+			cfg["op2"] = results[w.inst].Inst.Cfg["op"]
+			r.Inst.Cfg = cfg
+			model := map[string]string{}
+			for _, o := range r.Obls {
+				if len(o.Model) > 0 {
+					model = o.Model
+					break
+				}
+			}
+			r.Obls = append(r.Obls, Obligation{ID: "global-state-written-only-under-mutex", Verdict: "violated", Model: model,
+				Query: fmt.Sprintf("%s is read outside any mutex here and written (lock context %q) by %s", l, w.ctx, results[w.inst].Inst.Name)})
+		}
+	}
+}
+
+func c18Summary(results []InstResult) map[string]interface{} {
+	events := 0
+	reads := map[string]bool{}
+	writes := map[string]string{}
+	notes := map[string]int{}
+	for _, r := range results {
+		events += r.C18Events
+		for _, l := range r.C18Reads {
+			reads[l] = true
+		}
+		for l, c := range r.C18Writes {
+			writes[l] = c
+		}
+		for n, k := range r.C18Notes {
+			notes[n] += k
+		}
+	}
+	var rl []string
+	for l := range reads {
+		rl = append(rl, l)
+	}
+	sort.Strings(rl)
+	return map[string]interface{}{"shared_or_global_accesses_logged": events, "global_state_read_outside_mutex": rl, "global_state_written": writes, "writes_to_shared_operands": notes,
+		"atomic_by_model": []string{"sync.Pool Get/Put", "channel send/receive/select (densePool, headerPool, boolsPool)", "sync.Mutex Lock/Unlock"}}
 }
